@@ -150,32 +150,35 @@ Proof.
       * exists st. eexists. exists []. split; [reflexivity|]. split; [apply frags_ok_nil|]. split; [exact Hb2|]. split; congruence.
   - destruct nalu as [|h0 [|h1 body]]; try (exfalso; rewrite ?zlen_cons in E2; change (zlen (@nil Z)) with 0 in E2; lia).
     set (maxf := mtu - (3 + (if h5_donl_on st then 2 else 0))).
-    destruct ((maxf <=? 0) || (zlen body =? 0)) eqn:Eskip.
-    + exists st, b, []. split; [reflexivity|]. split; [apply frags_ok_nil|]. split; [exact Hb|]. split; reflexivity.
-    + destruct (h5_flush_ok mtu st b Hb) as (st1 & out1 & Hfl & Hok1 & Hd1 & Hs1). rewrite Hfl.
-      destruct (zlen body <=? maxf) eqn:Eone.
-      { (* the payload would fill one fragment: a single NAL unit packet *)
-        pose proof (zlen_nonneg body) as Hb0.
-        assert (Hlen : 1 <= zlen body <= maxf) by lia.
-        unfold h5_flush. cbn [hb_nalus].
-        destruct (h5_donl_on st1) eqn:Ed1.
-        - eexists. exists (mkH5Buf [] 0). eexists. split; [reflexivity|].
-          split; [apply frags_ok_app; [exact Hok1|]|].
-          + assert (Hds : h5_donl_on st = true) by congruence. unfold maxf in Hlen. rewrite Hds in Hlen.
-            apply frags_ok_one. unfold put16. cbn [app]. rewrite !zlen_cons. lia.
-          + split; [apply buf_ok_empty; exact Hm|]. cbn [h5_donl_on h5_skip_agg]. split; congruence.
-        - exists st1, (mkH5Buf [] 0). eexists. split; [reflexivity|].
-          split; [apply frags_ok_app; [exact Hok1|]|].
-          + assert (Hds : h5_donl_on st = false) by congruence. unfold maxf in Hlen. rewrite Hds in Hlen.
-            apply frags_ok_one. rewrite !zlen_cons. lia.
-          + split; [apply buf_ok_empty; exact Hm|]. split; congruence. }
-      destruct (h5_fus_ok (S (length body)) st1 maxf h0 h1 (nh_type (Z.lor (Z.shiftl h0 8) h1)) (zlen body) body
-                  ltac:(lia) ltac:(lia)) as (st2 & out2 & Hrun & Hok2 & Hd2 & Hs2).
-      rewrite Hrun. exists st2, (mkH5Buf [] 0), (out1 ++ out2). split; [reflexivity|].
-      split; [apply frags_ok_app; [exact Hok1|]|].
-      * rewrite Hd1 in Hok2. replace mtu with (maxf + 3 + (if h5_donl_on st then 2 else 0)) at 1 by (unfold maxf; lia).
-        exact Hok2.
-      * split; [apply buf_ok_empty; exact Hm|]. split; congruence.
+    pose proof (zlen_nonneg body) as Hb0.
+    destruct (zlen body =? 0) eqn:Ez.
+    { exists st, b, []. split; [reflexivity|]. split; [apply frags_ok_nil|]. split; [exact Hb|]. split; reflexivity. }
+    destruct (zlen body <=? maxf + 1) eqn:Eone.
+    { (* the unit fits a single NAL unit packet *)
+      destruct (h5_flush_ok mtu st b Hb) as (st1 & out1 & Hfl & Hok1 & Hd1 & Hs1). rewrite Hfl.
+      assert (Hlen : 1 <= zlen body <= maxf + 1) by lia.
+      unfold h5_flush. cbn [hb_nalus].
+      destruct (h5_donl_on st1) eqn:Ed1.
+      - eexists. exists (mkH5Buf [] 0). eexists. split; [reflexivity|].
+        split; [apply frags_ok_app; [exact Hok1|]|].
+        + assert (Hds : h5_donl_on st = true) by congruence. unfold maxf in Hlen. rewrite Hds in Hlen.
+          apply frags_ok_one. unfold put16. cbn [app]. rewrite !zlen_cons. lia.
+        + split; [apply buf_ok_empty; exact Hm|]. cbn [h5_donl_on h5_skip_agg]. split; congruence.
+      - exists st1, (mkH5Buf [] 0). eexists. split; [reflexivity|].
+        split; [apply frags_ok_app; [exact Hok1|]|].
+        + assert (Hds : h5_donl_on st = false) by congruence. unfold maxf in Hlen. rewrite Hds in Hlen.
+          apply frags_ok_one. rewrite !zlen_cons. lia.
+        + split; [apply buf_ok_empty; exact Hm|]. split; congruence. }
+    destruct (maxf <=? 0) eqn:Eskip.
+    { exists st, b, []. split; [reflexivity|]. split; [apply frags_ok_nil|]. split; [exact Hb|]. split; reflexivity. }
+    destruct (h5_flush_ok mtu st b Hb) as (st1 & out1 & Hfl & Hok1 & Hd1 & Hs1). rewrite Hfl.
+    destruct (h5_fus_ok (S (length body)) st1 maxf h0 h1 (nh_type (Z.lor (Z.shiftl h0 8) h1)) (zlen body) body
+                ltac:(lia) ltac:(lia)) as (st2 & out2 & Hrun & Hok2 & Hd2 & Hs2).
+    rewrite Hrun. exists st2, (mkH5Buf [] 0), (out1 ++ out2). split; [reflexivity|].
+    split; [apply frags_ok_app; [exact Hok1|]|].
+    + rewrite Hd1 in Hok2. replace mtu with (maxf + 3 + (if h5_donl_on st then 2 else 0)) at 1 by (unfold maxf; lia).
+      exact Hok2.
+    + split; [apply buf_ok_empty; exact Hm|]. split; congruence.
 Qed.
 
 Lemma h5_nalus_ok mtu : 0 <= mtu -> forall nalus st b, buf_ok mtu (h5_donl_on st) b ->
